@@ -128,7 +128,7 @@ Qed.
 
 Lemma run_input_frozen f now s i : frozen s (outcome_state (run_input f now s i) s).
 Proof.
-  destruct i as [ps ts ref md amd force | id force at_eff | [a|id] md | [a|id] k]; simpl.
+  destruct i as [ps ts ref md amd force | id force at_eff rmeta | [a|id] md | [a|id] k]; simpl.
   - destruct ps as [|p ps']; [apply frozen_refl|].
     destruct (feasible force (s_vols s) (p :: ps')); simpl; [|apply frozen_refl].
     destruct (commit_transaction f now s (p :: ps') md ts ref) as [s1 [t|]] eqn:E; simpl.
